@@ -109,6 +109,7 @@ void vf_case(Ctx& ctx, uint64_t i) {
   c.seti("mag", magexp); c.seti("shape", sc.shape); c.seti("crossings", sc.crossings); c.seti("vacuous", sc.vacuous);
   ctx.count("mag_2^" + std::to_string(magexp));
   ctx.count("shape_" + std::to_string(sc.shape));
+  if (sc.squash) { ctx.count("squashed_scenes"); c.seti("squash", sc.squash); }
   judge(ctx, c, false);
 }
 
